@@ -111,7 +111,7 @@ add('C12', 'model_checking',
 add('C06', 'model_checking',
     'TLA+ spec Expr.tla: TLC checks the transcribed parse/fold machine of executeExpr (orderOfOperations groups, leftmost fold, scan restart, branch parser for parentheses) against the declarative precedence rule on every enumerated expression and on seeded random deeper ones (invariant Agree, liveness on a small family) and exports the expected values; every expression is evaluated by the real interpreter and compared',
     'All expressions of <=3 operands x the 10 operators x every parenthesised group, every pair of 20 number spellings under every operator, string comparisons, and 4000/30000 random token sequences (nesting <=6) are evaluated by TLC with exact dyadic arithmetic and IEEE-754 Inf/NaN/signed zero; each is rendered and run as assignment with value+type read-back, bare statement, `expr` and inline `out (...)`; value and primitive type must equal the table.',
-    'values whose exact result is not a small dyadic (0.1, 1/3) and operand kinds the property does not combine (bool<num, str+num) are executed but not judged', 'DESIGN §6 C06')
+    'values whose exact result is not a small dyadic (0.1, 1/3) and operand kinds the property does not combine (bool<num, str+num) are executed but not judged; consequently the grouping of + against - (which differs only through floating-point rounding) is not decided - seeded change C06c', 'DESIGN §6 C06')
 add('C07', 'model_checking',
     'TLA+ spec Expr.tla (&& || ?: ??, truthiness table): TLC checks the transcribed fold machine against the rule on every enumerated expression and on random parenthesised trees and exports expected values and the truth table; expressions run on the real interpreter as `v = (E)` with value+type read-back; the truth table is pushed through if{}, ->if, ->!, !if and ?:',
     'All a<op>b over 57 operand forms (true false null, undefined variable, numbers, the 9 false words and other words in three spellings, parenthesised comparisons) x 4 operators, every 3-operand shape over 8 operands x 16 operator pairs, 3000/20000 random trees; 171 (word, exit number) rows x 5 entry points.',
